@@ -16,7 +16,7 @@ def _c06_case(c):
 CONFIG = {
     "properties_file": "Properties/C06.v",
     "proof_files": ["Base/Prelude.v", "Proofs/Stores.v", "Proofs/StoresConc.v"],
-    "model_files": ["Model/Stores.v", "Model/StoresConc.v"],
+    "model_files": ["Generated/GC06.v", "Model/Stores.v", "Model/StoresConc.v"],
     "extract": "XC06.v",
     "ml_main": "c06_main.ml",
     "harness": "c06",
